@@ -73,11 +73,26 @@ def deep_equal(seq1: Iterable[Any],
             elif value1 is None:
                 return True
             elif isinstance(value1, XPathMap):
-                assert isinstance(value2, XPathMap)
-                return value1 == value2
+                if not isinstance(value2, XPathMap) or len(value1) != len(value2):
+                    return False
+                for k1, v1 in value1.items():
+                    for k2, v2 in value2.items():
+                        if same_key(k1, k2):
+                            if not deep_equal(v1 if isinstance(v1, list) else [v1],
+                                              v2 if isinstance(v2, list) else [v2],
+                                              collation, token):
+                                return False
+                            break
+                    else:
+                        return False
             elif isinstance(value1, XPathArray):
-                assert isinstance(value2, XPathArray)
-                return value1 == value2
+                if not isinstance(value2, XPathArray) or len(value1) != len(value2):
+                    return False
+                for v1, v2 in zip(value1.items(), value2.items()):
+                    if not deep_equal(v1 if isinstance(v1, list) else [v1],
+                                      v2 if isinstance(v2, list) else [v2],
+                                      collation, token):
+                        return False
             elif isinstance(value1, XPathNode):
                 assert isinstance(value2, XPathNode)
                 if value1.__class__ != value2.__class__:
